@@ -115,6 +115,16 @@ class Lowering:
         def larg(a):
             return _rv(a.args[0]) if a.kind == "lam" else self.p(a.args[0])
 
+        def G(a, cs, b=None):
+            """Facts about ln(x) hold where x > 0: guarded atoms state them under that condition."""
+            g = []
+            for at in (a, b):
+                if at is not None and at.kind == "L" and at.guard:
+                    g.append(larg(at) > 0)
+            if not g:
+                return cs
+            return [z3.Implies(z3.And(*g), c) for c in cs]
+
         def escales(a):
             out = [(None, None)]
             for f, lf in sorted(a.scales or (), key=lambda t: t[0].key()):
@@ -134,9 +144,10 @@ class Lowering:
             if a.kind == "lam":
                 continue
             l, x = self.z[a.id], larg(a)
-            self.side += [x > 0]
+            if not a.guard:
+                self.side += [x > 0]
             if self.level >= 1:
-                self.side += [l <= x - 1, x * l >= x - 1, (x > 1) == (l > 0), (x < 1) == (l < 0)]
+                self.side += G(a, [l <= x - 1, x * l >= x - 1, (x > 1) == (l > 0), (x < 1) == (l < 0)])
         if pairs:
             if len(E) <= PAIR_CAP:
                 for a, b in itertools.combinations(E, 2):
@@ -157,15 +168,15 @@ class Lowering:
                         for sb in scales(b):
                             c = sa / sb          # the logarithms that were asked for are ln(sa*xa), ln(sb*xb)
                             if c == 1:
-                                self.side += [(xa < xb) == (la < lb), (xa == xb) == (la == lb)]
+                                self.side += G(a, [(xa < xb) == (la < lb), (xa == xb) == (la == lb)], b)
                             else:
                                 lc = self.p(T.log_const(c))
-                                self.side += [(_rv(c) * xa < xb) == (la + lc < lb), (_rv(c) * xa == xb) == (la + lc == lb)]
+                                self.side += G(a, [(_rv(c) * xa < xb) == (la + lc < lb), (_rv(c) * xa == xb) == (la + lc == lb)], b)
                 for a in L:
                     for sa in scales(a):
                         if sa != 1 and a.kind == "L":
                             la, xa, lc = self.z[a.id], larg(a), self.p(T.log_const(sa))
-                            self.side += [(_rv(sa) * xa > 1) == (la + lc > 0), (_rv(sa) * xa < 1) == (la + lc < 0)]
+                            self.side += G(a, [(_rv(sa) * xa > 1) == (la + lc > 0), (_rv(sa) * xa < 1) == (la + lc < 0)])
             if self.level >= 2 and len(E) * len(L) <= PAIR_CAP * PAIR_CAP:
                 for a in E:
                     for b in L:
@@ -174,10 +185,10 @@ class Lowering:
                             X, EE = (x, e) if fa is None else (x + la_, fa * e)
                             for sb in (sorted({Fraction(1)} | (b.scales or set())) if b.kind == "L" else [Fraction(1)]):
                                 if sb == 1:
-                                    self.side += [(X < l) == (EE < y), (X == l) == (EE == y)]
+                                    self.side += G(b, [(X < l) == (EE < y), (X == l) == (EE == y)])
                                 else:
                                     lc = self.p(T.log_const(sb))
-                                    self.side += [(X < l + lc) == (EE < _rv(sb) * y), (X == l + lc) == (EE == _rv(sb) * y)]
+                                    self.side += G(b, [(X < l + lc) == (EE < _rv(sb) * y), (X == l + lc) == (EE == _rv(sb) * y)])
                         if b.kind == "lam":
                             self.side += [(x < -l) == (e * y < 1), (x == -l) == (e * y == 1)]
         # exp against quotients of logarithm arguments:  x < ln(yb) - ln(yc)  <=>  e^x * yc < yb
@@ -189,7 +200,7 @@ class Lowering:
                     X, EE = (x, e) if fa is None else (x + la_, fa * e)
                     for b, c in itertools.permutations(Lp, 2):
                         lb, lc, yb, yc = self.z[b.id], self.z[c.id], larg(b), larg(c)
-                        self.side += [(X < lb - lc) == (EE * yc < yb), (X == lb - lc) == (EE * yc == yb)]
+                        self.side += G(b, [(X < lb - lc) == (EE * yc < yb), (X == lb - lc) == (EE * yc == yb)], c)
         # common differences: when the same difference d = arg_a - arg_b occurs for several pairs, one new
         # atom E(d) is introduced and  E(a) = E(b) * E(d)  is stated for each of them (true of exp)
         if self.level >= 2 and 2 <= len(E) <= PAIR_CAP:
@@ -412,6 +423,13 @@ def solve(conds, timeout_s=60, exp_axioms=True, pair_axioms=True, want_smt2=Fals
                     model[at.args[0]] = _model_value(m, low.z[at.id])
             for v, e in subs:
                 model[v.args[0]] = _model_value(m, low.p(e))
+            ufv = {}
+            for at in low.atoms:
+                if at.kind == "uf":
+                    ufv.setdefault(at.args[0], []).append(
+                        ([_model_value(m, low.p(a)) for a in at.args[1:]], _model_value(m, low.z[at.id])))
+            if ufv:
+                model["__uf__"] = ufv
             last = Result("sat", time.time() - t0, model, smt2, stats)
             if lv == levels[-1]:
                 return last
